@@ -635,7 +635,9 @@ func errlocStream(r *Run) {
 			src, _, _ := cand.assemble(0, nil)
 			real := RealiseEnv(e)
 			if res := renderImpl(engineCfg{}, "", 0, src, real); !strings.HasPrefix(res, "ok ") {
-				r.Count("skeleton-rejected")
+				if r.Shard == 0 {
+					r.Count("skeleton-rejected")
+				}
 				continue
 			}
 			sk, env = cand, e
@@ -645,12 +647,16 @@ func errlocStream(r *Run) {
 			}
 		}
 		if sk == nil {
-			r.Count("skeleton-gave-up")
+			if r.Shard == 0 {
+				r.Count("skeleton-gave-up")
+			}
 			continue
 		}
-		r.Count(fmt.Sprintf("skeleton-depth=%d", depth))
-		if strictOK {
-			r.Count("skeleton-strict-ok")
+		if r.Shard == 0 { // every shard builds the same skeletons: count them once
+			r.Count(fmt.Sprintf("skeleton-depth=%d", depth))
+			if strictOK {
+				r.Count("skeleton-strict-ok")
+			}
 		}
 		for at := 0; at <= len(sk.pieces); at++ {
 			ctx := sk.ctxs[at]
